@@ -1,0 +1,6 @@
+//go:build verif
+
+package epd
+
+// VerifShuffleIndex exposes the epoch shuffle.
+func VerifShuffleIndex(x, n, seed uint64) uint64 { return shuffleIndex(x, n, seed) }
